@@ -85,7 +85,11 @@ def _node_kind(x):
     if isinstance(x, np.ndarray):
         if x.dtype == object:
             return 'objarr'
-        return 'array' if (x.size > 0 and x.dtype.kind in 'fiubc' and not is_label_seq(x)) else None
+        # label sequences (1-D int / str / bool) are storage too: a result that *is* the caller's
+        # descriptor array lets an array write (or a later in-place shuffle) relabel the argument;
+        # whether a record counts is decided by `_arr_cause` (both ends held in descriptor
+        # dictionaries: information only, as before)
+        return 'array' if (x.size > 0 and x.dtype.kind in 'fiubcUS') else None
     if isinstance(x, dict):
         return 'dict'
     if isinstance(x, list):
@@ -220,6 +224,11 @@ def _write(a):
         a[...] = np.where(np.isfinite(flat), -flat - 1.0, 7.0)
     elif a.dtype.kind == 'b':
         a[...] = ~a
+    elif a.dtype.kind in 'US':
+        new = np.roll(a, 1)
+        if (new == a).all():
+            new = np.array(['~'] * a.size, dtype=a.dtype).reshape(a.shape)
+        a[...] = new
     else:
         a[...] = a + 1
     return True
